@@ -277,7 +277,7 @@ pub fn run(ctx: &Ctx) -> PropResult {
     wls.push(Workload::cases("offset_local_twins", ctx.count(3_000, 40_000), |rec, _, rng| super::localzone::twin_pair_case(rec, rng, "C06")));
     let out = run_workloads(ctx, wls);
     let mut meta = PropMeta::default();
-    meta.rule = "The C03 pair generator (instants in 8 strata x deltas {0, ±1 ns, sub-second, k units ± few ns for each of the 7 units, days, 2^62 ns, uniform} x two independent offsets): each of the 7 DateTime::*_since must equal (i_a − i_b)/unit truncated toward zero in i128, be antisymmetric, and (for counts < 2^32 with a representable upper bound) satisfy b.add_u(n) <= a < b.add_u(n+1); duration_between must equal |i_a − i_b| both ways. Time pairs (6 units, stored nanoseconds) and Date pairs (days) likewise. Every pair is non-trivial (bins report the borrow / sub-unit / negative-path classes); distinct by input hash. Differences next to 'magic magnitudes' (2^15…2^64 of every unit from ns to weeks, ± jitter up to a day) and instants at such magnitudes from 0001-01-01 / 1970-01-01 are part of the pair generator. Offset::Local twins (pairs) for all seven *_since and duration_between.".into();
+    meta.rule = "The C03 pair generator (instants in 8 strata x deltas {0, ±1 ns, sub-second, k units ± few ns for each of the 7 units, days, 2^62 ns, uniform} x two independent offsets): each of the 7 DateTime::*_since must equal (i_a − i_b)/unit truncated toward zero in i128, be antisymmetric, and (for counts < 2^32 with a representable upper bound) satisfy b.add_u(n) <= a < b.add_u(n+1); duration_between must equal |i_a − i_b| both ways. Time pairs (6 units, stored nanoseconds) and Date pairs (days) likewise. Every pair is non-trivial (bins report the borrow / sub-unit / negative-path classes); distinct by input hash. Differences next to 'magic magnitudes' (2^15…2^64 of every unit from ns to weeks, ± jitter up to a day) and instants at such magnitudes from 0001-01-01 / 1970-01-01 are part of the pair generator. Offset::Local twins (pairs) for all seven *_since and duration_between. Operands whose local reading lies beyond a range end; Time pairs under any Offset::Fixed(i32); sibling call sequences (pair, reversed pair, pairs sharing an operand with a sibling of the other).".into();
     meta.required_bins = vec![
         "outward/local-reading-beyond-the-range-end",
         "sequence/sibling-calls",
